@@ -43,7 +43,9 @@ Theorem C09_revoke_stops : forall cfg ops s,
 Proof. exact idle_run. Qed.
 
 (* HAND-OFF.  C07_cover_partial quantifies over histories that contain Crash (the instance is replaced by one that
-   has only read the compacted topic) and Revoke at any point - after any number of records, right after a progress
+   has only read the compacted topic), RecCrash (the owner dies while blocked on the emission of a record: the limiter
+   wait is taken, the record is not emitted, the progress broadcast that FOLLOWS the emission in recoverSingleEvent does
+   not happen) and Revoke at any point - after any number of records, right after a progress
    broadcast, right before completion.  Restated here: old and new owner together emit every retained record of
    (from, to] once the request completes, and of (from, progress] while it is outstanding - so resuming from the
    broadcast progress point loses nothing.  The full statement (including the record AT from) is refuted. *)
